@@ -42,3 +42,16 @@ def refs_drift(repo, tier):
     if not ok:
         res["crash"] = "extracted reference differs from the installed CPython: " + p.stdout.strip()[-200:]
     return [res]
+
+
+def refs_validation(repo, tier):
+    """the reference functions of contracts/refs against the running CPython (bounded differential validation of
+    the contracts themselves; a mismatch is a CONTRACT error -> CHECKER-ERROR, never a violation of asyncstdlib)"""
+    r = _native("bounded.py", repo, "refs", tier)
+    if "error" in r:
+        return [dict(_result("validate:references-vs-cpython", (), []), crash=r["error"])]
+    res = _result("validate:references-vs-cpython", (), [])
+    res["validation"] = {"cases": r["cases"], "mismatches": r["violations"][:5]}
+    if r["violations"]:
+        res["crash"] = "reference function disagrees with CPython: " + r["violations"][0][:300]
+    return [res]
